@@ -1,9 +1,104 @@
+import RsslVerif.Model.Overload
 import RsslVerif.Driver.Util
-/-! Line-protocol front end of the C16 model (stub until the model is built). -/
+/-! Line-protocol front end of the C16 model (`C16.resolve`, `C16.conv`); formats are described in
+`harness/src/c16.rs`. -/
 namespace RsslVerif.Driver.C16
+open RsslVerif.Gen.RankTable RsslVerif.Model.Conv RsslVerif.Model.Overload RsslVerif.Driver
+
+def modLetters : List (Char × (Modifier → Modifier)) :=
+  [('c', fun m => { m with isConst := true }), ('v', fun m => { m with volatile := true }),
+   ('r', fun m => { m with rest := m.rest ||| 1 }), ('k', fun m => { m with rest := m.rest ||| 2 }),
+   ('u', fun m => { m with rest := m.rest ||| 4 }), ('n', fun m => { m with rest := m.rest ||| 8 })]
+
+def parseMods (s : String) : Option Modifier :=
+  if s == "-" then some {} else
+  s.toList.foldl (fun acc c => acc.bind fun m => (modLetters.lookup c).map (· m)) (some {})
+
+def showMods (m : Modifier) : String :=
+  let s := (if m.isConst then "c" else "") ++ (if m.volatile then "v" else "") ++
+    (if m.rest &&& 1 != 0 then "r" else "") ++ (if m.rest &&& 2 != 0 then "k" else "") ++
+    (if m.rest &&& 4 != 0 then "u" else "") ++ (if m.rest &&& 8 != 0 then "n" else "")
+  if s.isEmpty then "-" else s
+
+def parseLayer (s : String) : Option Layer :=
+  match s.splitOn "." with
+  | ["s", sc] => (Scalar.ofName? sc).map .scalar
+  | ["v", sc, n] => do pure (.vector (← Scalar.ofName? sc) (← n.toNat?))
+  | ["m", sc, x, y] => do pure (.matrix (← Scalar.ofName? sc) (← x.toNat?) (← y.toNat?))
+  | ["e", i] => i.toNat?.map .enum
+  | ["o", i] => i.toNat?.map .other
+  | _ => none
+
+def showLayer : Layer → String
+  | .scalar s => "s." ++ s.name
+  | .vector s n => "v." ++ s.name ++ "." ++ toString n
+  | .matrix s x y => "m." ++ s.name ++ "." ++ toString x ++ "." ++ toString y
+  | .enum i => "e." ++ toString i
+  | .other i => "o." ++ toString i
+
+def parseETy (s : String) : Option ETy :=
+  match s.splitOn "/" with
+  | [vt, m, l] => do
+    let vt ← match vt with | "L" => some VT.lvalue | "R" => some VT.rvalue | _ => none
+    pure ⟨⟨← parseMods m, ← parseLayer l⟩, vt⟩
+  | _ => none
+
+def showETy (e : ETy) : String :=
+  (match e.vt with | .lvalue => "L" | .rvalue => "R") ++ "/" ++ showMods e.ty.mod ++ "/" ++ showLayer e.ty.layer
+
+def parseParam (s : String) : Option Param :=
+  match s.splitOn "/" with
+  | [io, m, l] => do
+    let io ← match io with
+      | "in" => some InputModifier.in | "out" => some .out | "inout" => some .inOut | _ => none
+    pure ⟨⟨← parseMods m, ← parseLayer l⟩, io⟩
+  | _ => none
+
+def parseCand (s : String) : Option Cand :=
+  match s.splitOn ":" with
+  | [id, nd, ps] => do
+    let ps ← sequenceOpt ((if ps.isEmpty then [] else ps.splitOn ",").map parseParam)
+    pure ⟨← id.toNat?, ps, ← nd.toNat?⟩
+  | _ => none
+
+def showOutcome : Outcome → String
+  | .selected id => "sel " ++ toString id
+  | .ambiguous ids => "amb " ++ ",".intercalate (ids.map toString)
+  | .unmatched => "none"
+  | .panic => "panic"
+
+def convCell (src dst : ETy) : String :=
+  match find src dst with
+  | .error _ => "panic"
+  | .ok none => "err"
+  | .ok (some c) =>
+    (match getRank c with
+     | .error _ => "panic/panic"
+     | .ok r => r.num.name ++ "/" ++ r.vec.name) ++ ">" ++
+    (match targetType c with
+     | .error _ => "panic"
+     | .ok t => showETy t)
+
+/-- the optional 4th field (`D`: every candidate is also defined, in reverse order) does not change the
+    candidate set, so the model ignores it -/
+def handleResolve (cs az : String) : String :=
+  match sequenceOpt ((if cs.isEmpty then [] else cs.splitOn ";").map parseCand),
+        sequenceOpt ((if az.isEmpty then [] else az.splitOn ",").map parseETy) with
+  | some cands, some a =>
+    -- the literal transcription answers; `resolve` (what the theorems are about) must agree (Thm.C16.resolveLazy_eq_resolve)
+    let o := resolveLazy cands a
+    if o == resolve cands a then showOutcome o.normalize else "model-internal-mismatch"
+
+  | _, _ => "bad-request"
 
 def handle (op : String) (args : List String) : String :=
-  let _ := (op, args)
-  "unsupported-op"
+  match op, args with
+  | "C16.resolve", [cs, az, _] => handleResolve cs az
+  | "C16.resolve", [cs, az] => handleResolve cs az
+  | "C16.conv", [src, dsts] =>
+    match parseETy src, sequenceOpt ((dsts.splitOn " ").map parseETy) with
+    | some s, some ds => " ".intercalate (ds.map (convCell s))
+    | _, _ => "bad-request"
+  | _, _ => "unsupported-op"
 
 end RsslVerif.Driver.C16
